@@ -16,7 +16,7 @@ def posted_dump(prob):
     """the model as POSTED by the Python constructor, in the driver's `example` format"""
     props = []
     for vs, a, ps in prob.props:
-        pos = ",".join(f"{prob.idx[v]}:{prob.off[v]}" for v in vs)
+        pos = ",".join((f"{prob.idx[v]}:{prob.off[v]}" if 0 <= v < len(prob.idx) else f"out-of-range-variable-{v}") for v in vs)
         props.append(f"Nucs.Alg.{LEAN[a]}|{pos}|{nv.enc_ints(ps)}")
     vars_ = ",".join(f"{i}:{o}" for i, o in zip(prob.idx, prob.off))
     return f"{nv.enc_box(prob.shr)} {vars_ if vars_ else '-'} {';'.join(props) if props else '-'}"
@@ -244,7 +244,7 @@ def run(ctx):
             best = c if best is None or c < best else best
         report.cov["evaluations"] += 1
         report.nontrivial(("tsp", str(rows)))
-        got = None if r[1] is None else r[1][len(tprob.idx) - 1]
+        got = None if r[0] != "ok" or r[1] is None else r[1][len(tprob.idx) - 1]
         if r[0] != "ok" or got != best:
             viol.append({"kind": "example", "model": "tsp", "args": rows, "detail": f"TSP optimum returned {got} ({r[0]}), brute force over all tours gives {best}"})
         elif r[1] is not None and not v_circuit(n, r[1][:n]):
@@ -268,7 +268,7 @@ def run(ctx):
             report.cov["evaluations"] += 1
             report.nontrivial(("knapsack", str((w_, vol_, cap_))))
             if r[0] != "ok" or r[1] is None or r[1][kp2.weight] != bestk:
-                viol.append({"kind": "example", "model": "knapsack", "args": [w_, vol_, cap_], "detail": f"optimum {None if r[1] is None else r[1][kp2.weight]} != brute force {bestk}"})
+                viol.append({"kind": "example", "model": "knapsack", "args": [w_, vol_, cap_], "detail": f"optimum {r[1][kp2.weight] if r[0] == 'ok' and r[1] is not None else None} != brute force {bestk}"})
             elif sum(vi * x for vi, x in zip(vol_, r[1][:k])) > cap_ or sum(wi * x for wi, x in zip(w_, r[1][:k])) != r[1][kp2.weight]:
                 viol.append({"kind": "example", "model": "knapsack", "args": [w_, vol_, cap_], "detail": f"the returned selection {r[1]} exceeds the capacity or does not have the reported weight"})
     answers = nv.Model().ask([q for q, _, _, _ in reqs])
@@ -388,7 +388,7 @@ def run(ctx):
         r = nv.impl_optimize(prob, nv.Cfg(decision=list(range(marks - 1))), gp.length_idx, True)
         report.cov["evaluations"] += 1
         if r[0] != "ok" or r[1] is None or r[1][gp.length_idx] != KNOWN["golomb"][marks]:
-            viol.append({"kind": "example", "model": "golomb", "args": [marks], "detail": f"optimal length {None if r[1] is None else r[1][gp.length_idx]} != known {KNOWN['golomb'][marks]} ({r[0]})"})
+            viol.append({"kind": "example", "model": "golomb", "args": [marks], "detail": f"optimal length {r[1][gp.length_idx] if r[0] == 'ok' and r[1] is not None else None} != known {KNOWN['golomb'][marks]} ({r[0]})"})
     # the Golomb model ships its OWN consistency algorithm (golomb_consistency_algorithm: a redundant strengthening of bound
     # consistency, registered by the example's main and by the tests): run as the example does; the optimum must be the known one,
     # the returned vector a ruler (independent validator), and for small sizes the solution SET under it must equal the set under
